@@ -132,6 +132,8 @@ pub struct TaskInfo {
     pub ever_blocked: bool,
     /// how many times the task entered a blocked state (other than harness idle waits)
     pub blocks: u64,
+    /// how many of those were waits for a (simulated) mutex held by another task
+    pub lock_waits: u64,
     pub steps: u64,
     pub parent: Option<TaskId>,
 }
@@ -476,6 +478,7 @@ impl Kernel {
                 panicked: None,
                 ever_blocked: false,
                 blocks: 0,
+                lock_waits: 0,
                 steps: 0,
                 parent,
             },
@@ -828,6 +831,12 @@ impl Kernel {
         }
     }
 
+    /// The next `block_on` of `me` is a wait for a mutex held by another task.
+    pub fn note_lock_wait(&self, me: TaskId) {
+        let mut st = self.lock();
+        st.tasks[me].info.lock_waits += 1;
+    }
+
     pub fn wake(&self, res: u64) {
         let mut st = self.lock();
         if st.aborting {
@@ -958,6 +967,18 @@ pub fn event(what: impl FnOnce() -> String, h: &[u64]) {
 }
 
 /// (own scheduling steps, times blocked) of the calling task
+/// (own steps, blocked states other than waits for a mutex, waits for a mutex) of the calling task.
+pub fn my_stats3() -> (u64, u64, u64) {
+    match current() {
+        Some((k, me)) => {
+            let st = k.lock();
+            let i = &st.tasks[me].info;
+            (i.steps, i.blocks.saturating_sub(i.lock_waits), i.lock_waits)
+        }
+        None => (0, 0, 0),
+    }
+}
+
 pub fn my_stats() -> (u64, u64) {
     match current() {
         Some((k, me)) => {
